@@ -549,7 +549,9 @@ func (q *Queue) Tick(now time.Duration) {
 }
 
 // Idle: nothing queued, nothing delayed, nothing in flight.
-func (q *Queue) Idle() bool { return len(q.items) == 0 && len(q.delayed) == 0 && len(q.processing) == 0 }
+func (q *Queue) Idle() bool {
+	return len(q.items) == 0 && len(q.delayed) == 0 && len(q.processing) == 0
+}
 
 // Shuffle reorders the queued items (initial delivery order).
 func (q *Queue) Shuffle(perm func(n int) []int) {
